@@ -79,3 +79,34 @@ def seed():
         return int(os.environ.get("VERIF_SEED", "0"))
     except ValueError:
         return 0
+
+
+TZ_RULES = ("CET-1CEST,M3.5.0,M10.5.0/3", "EST5EDT,M3.2.0,M11.1.0", "<-03>3<-02>,M10.3.0/0,M2.3.0/0", "AEST-10AEDT,M10.1.0,M4.1.0/3")
+# (month, day) of 2021 on which one of these zones skips or repeats an hour
+TZ_DAYS = ((3, 28), (3, 14), (10, 31), (11, 7), (10, 17), (10, 3), (2, 21), (4, 4))
+
+
+class timezone:
+    """run a block under a local time zone given as a POSIX TZ rule (no tzdata needed); the decoded tree must not
+    depend on it: every time in the files is an absolute (UTC) instant"""
+
+    def __init__(self, rule):
+        self.rule = rule
+
+    def __enter__(self):
+        import time
+
+        self.old = os.environ.get("TZ")
+        if self.rule:
+            os.environ["TZ"] = self.rule
+            time.tzset()
+
+    def __exit__(self, *a):
+        import time
+
+        if self.rule:
+            if self.old is None:
+                os.environ.pop("TZ", None)
+            else:
+                os.environ["TZ"] = self.old
+            time.tzset()
